@@ -1598,15 +1598,20 @@ impl AggregationState {
             if id == next_id {
                 any_new = true;
                 self.raw_key_values[col].push(accessor.extract_scalar(row));
-            } else if matches!(
-                accessor,
-                TypedArrayAccessor::String(_)
-                    | TypedArrayAccessor::Other(_)
-                    | TypedArrayAccessor::DictString(_)
-            ) {
+            } else if raw_key == u64::MAX
+                || matches!(
+                    accessor,
+                    TypedArrayAccessor::String(_)
+                        | TypedArrayAccessor::Other(_)
+                        | TypedArrayAccessor::DictString(_)
+                )
+            {
                 // Raw keys for strings/other types are lossy encodings — verify
                 // the hit against the registered value; on collision, fall back
                 // to the exact HashMap path for this whole state.
+                // u64::MAX is ALSO the raw key of NULL for every type, and it is
+                // the bit pattern of the integer -1: without this check a NULL
+                // key and the key -1 shared one id and were merged into one group.
                 if !accessor.value_equals_scalar(row, &self.raw_key_values[col][id as usize]) {
                     self.overflowed = true;
                     return None;
